@@ -253,7 +253,12 @@ AmKind(call, z) ==
   ELSE IF call.method = "check_for_updates" THEN "airtouch"
   ELSE IF Absent(z) THEN "ac" ELSE "zone"
 
-AmResult(rej, msgs, any, nonidem) == [reject |-> rej, msgs |-> msgs, any |-> any, nonidem |-> nonidem]
+\* policy (C02 policy part; docs/design.md "Retries"): "once" = the accumulating command, no retry
+\* (0 retries, 30 s lifetime); "idempotent" = every other public call, the update check included
+\* (2 retries, 30 s lifetime).
+AmResult(rej, msgs, any, nonidem) ==
+  [reject |-> rej, msgs |-> msgs, any |-> any, nonidem |-> nonidem,
+   policy |-> IF nonidem THEN "once" ELSE "idempotent"]
 AmAccept(msgs)  == AmResult(FALSE, msgs, FALSE, FALSE)
 AmRefuse        == AmResult(TRUE, <<>>, FALSE, FALSE)
 AmUndetermined  == AmResult("ANY", <<>>, TRUE, FALSE)
@@ -336,10 +341,11 @@ AmAcSetPower(proto, call, a) ==
                 FALSE, pc = "TOGGLE")
 
 \* api.py set_mode: "optionally powers on the air-conditioner if it is currently turned off";
-\* "ValueError: The requested mode is not supported".  With power_on: OFF must carry TURN_ON; ON may
-\* carry it ("Set to on" has no effect on a unit that is on: docs/design.md "Retries"); AT5 "Away(On)"
-\* and "Sleep" are not turned off and "Set to on" would end them: keep; power state unknown / not
-\* available, or AT5 "Away(Off)": with or without TURN_ON.
+\* "ValueError: The requested mode is not supported".  Without power_on the power field is keep.  With
+\* power_on a unit reported OFF must get TURN_ON; for every other (or unknown) power state the frame
+\* may carry TURN_ON or keep: the caller asked for the unit to be on, "Set to on" has no effect on a
+\* unit that is on (docs/design.md "Retries"), and no statement says what power_on means for the AT5
+\* away / sleep states (tolerance T3 of API_NOTES.md).
 AmAcSetMode(proto, call, a) ==
   LET mode == AmArgName(call, 1)
       n    == a.ability.ac_number
@@ -347,11 +353,8 @@ AmAcSetMode(proto, call, a) ==
       wout == AmAcCtl(proto, n, "UNCHANGED", mode, "UNCHANGED", <<>>)
   IN IF mode \notin AmSupportedModes(a.ability) THEN AmRefuse
      ELSE IF ~AmPowerOn(call) THEN AmAccept(<<wout>>)
-     ELSE IF Absent(a.status) \/ IsNA(a.status.power_state) \/ Eq(a.status.power_state, "OFF_AWAY")
-             \/ Eq(a.status.power_state, "ON")
-          THEN AmAccept(<<won, wout>>)
-     ELSE IF Eq(a.status.power_state, "OFF") THEN AmAccept(<<won>>)
-     ELSE AmAccept(<<wout>>)
+     ELSE IF ~Absent(a.status) /\ Eq(a.status.power_state, "OFF") THEN AmAccept(<<won>>)
+     ELSE AmAccept(<<won, wout>>)
 
 \* api.py set_fan_speed: "ValueError: The requested fan speed is not supported"
 AmAcSetFan(proto, call, a) ==
@@ -472,6 +475,9 @@ AmZoneSetDamper(proto, call, z) ==
 \* api.py check_for_updates "Poll to check for available updates": AT4 4e-iv / AT5 4.b.iv request
 AmCheckUpdates == AmAccept(<< AmExt([k |-> "ConsoleVersionRequest"]) >>)
 
+\* <<retries, lifetime in ms>> of a policy
+PolicyOf(p) == IF p = "once" THEN <<0, 30000>> ELSE <<2, 30000>>
+
 \* call: the trace event of the public call; a / z: AcState / ZoneState of the target (z = <<>> for AC
 \* calls, a = owning AC for zone calls; neither is looked at for the AirTouch call).
 Expect(proto, call, a, z) ==
@@ -551,8 +557,11 @@ AmAbstract(target, power, mode, fan, sp, damper, timers, quick, request) ==
 AmAbsOther(m) == AmAbstract(<<"other", 0>>, "keep", "keep", "keep", <<>>, <<>>, "keep", <<>>, "other")
 
 \* timer state in neutral terms: <<>> = disabled, <<h, m>> = enabled at h:m
-AmAbsTimer(t) == IF Eq(t.disabled, TRUE) THEN <<>> ELSE <<t.hour, t.minute>>
-AmAbsTimers(recs) == [i \in 1..Len(recs) |-> <<recs[i].ac_number, AmAbsTimer(recs[i].on_timer), AmAbsTimer(recs[i].off_timer)>>]
+AmAbsTimer(t) == IF Eq(t, "ANY") THEN "ANY" ELSE IF Eq(t.disabled, TRUE) THEN <<>> ELSE <<t.hour, t.minute>>
+\* (the wild-card records / states of an expectation pattern are passed through as "ANY")
+AmAbsTimers(recs) ==
+  [i \in 1..Len(recs) |-> IF Eq(recs[i], "ANY") THEN <<i - 1, "ANY", "ANY">>
+                          ELSE <<recs[i].ac_number, AmAbsTimer(recs[i].on_timer), AmAbsTimer(recs[i].off_timer)>>]
 AmAbsQuick(q) == AmAbstract(<<"ac", q.ac_number>>, "keep", "keep", "keep", <<>>, <<>>, "keep",
                             <<q.timer_type, q.duration.d * 1440 + q.duration.s \div 60>>, "none")
 
@@ -612,6 +621,6 @@ AbstractCmd(proto, m) ==
 \* the <<on, off>> pair an abstract timer command gives AC n, <<>> if it has no record for it
 AbstractTimerFor(abs, n) ==
   IF Eq(abs.timers, "keep") THEN <<>>
-  ELSE LET hits == SelectSeq(abs.timers, LAMBDA t : t[1] = n)
+  ELSE LET hits == SelectSeq(abs.timers, LAMBDA t : Eq(t[1], n))
        IN IF hits = <<>> THEN <<>> ELSE << hits[Len(hits)][2], hits[Len(hits)][3] >>
 =============================================================================
